@@ -138,6 +138,7 @@ type Interp struct {
 	nQueries    int
 	nTrivial    int
 	curFrame    *frame
+	forkSites   map[string]int
 }
 
 type Observation struct {
@@ -299,6 +300,16 @@ func (in *Interp) fork(d Decision, model map[string]uint64) {
 	copy(p, in.trace)
 	p[len(in.trace)] = d
 	in.nForks++
+	if in.forkSites != nil {
+		site := "harness-level"
+		if in.curFrame != nil {
+			site = in.curFrame.fn.String()
+			if in.curFrame.caller != nil {
+				site += " <- " + in.curFrame.caller.fn.String()
+			}
+		}
+		in.forkSites[string(d.Kind)+" "+site]++
+	}
 	if in.onFork != nil {
 		in.onFork(p, model)
 	}
@@ -1042,22 +1053,34 @@ func (in *Interp) visitInstr(fr *frame, instr ssa.Instruction) int {
 		p := Ptr{base: []Value{in.zero(t)}}
 		fr.set(instr, p)
 	case *ssa.MakeSlice:
-		n := int(int64(in.concInt(fr.get(instr.Len), "make len")))
-		c := int(int64(in.concInt(fr.get(instr.Cap), "make cap")))
-		if n < 0 || c < n || c > 1<<24 {
-			if n < 0 || c < n {
-				in.throw(fr, "makeslice: len out of range")
-			}
-			panic(pathEnd{"limit", fmt.Sprintf("make of %d elements", c)})
+		lt := in.idx64(fr.get(instr.Len).(*Term), instr.Len.Type())
+		ct := in.idx64(fr.get(instr.Cap).(*Term), instr.Cap.Type())
+		const allocLimit = 1 << 24
+		okLen := in.tt.And(in.tt.CmpBV(OUle, lt, ct), in.tt.CmpBV(OUle, ct, in.tt.BVConst(1<<47, 64)))
+		in.curFrame = fr
+		if !in.decide(okLen) {
+			in.throw(fr, "makeslice: len out of range")
 		}
+		if !in.decide(in.tt.CmpBV(OUle, ct, in.tt.BVConst(allocLimit, 64))) {
+			panic(pathEnd{"limit", fmt.Sprintf("make of more than %d elements", allocLimit)})
+		}
+		n := int(in.concretize(lt, "make len"))
+		c := int(in.concretize(ct, "make cap"))
 		et := instr.Type().Underlying().(*types.Slice).Elem()
 		s := make(Slice, c)
 		z := in.zero(et)
-		for i := range s {
-			if i == 0 {
+		switch z.(type) {
+		case Struct, Array:
+			for i := range s {
+				if i == 0 {
+					s[i] = z
+				} else {
+					s[i] = copyVal(z)
+				}
+			}
+		default:
+			for i := range s {
 				s[i] = z
-			} else {
-				s[i] = copyVal(z)
 			}
 		}
 		fr.set(instr, s[:n])
@@ -1338,33 +1361,42 @@ func (in *Interp) readIndexed(fr *frame, base []Value, idx *Term, it types.Type)
 }
 
 func (in *Interp) slice(fr *frame, instr *ssa.Slice, x Value, lo, hi, max ssa.Value) Value {
-	getIdx := func(v ssa.Value, def int) int {
+	tt := in.tt
+	// bounds as 64-bit terms (nil = default)
+	term := func(v ssa.Value) *Term {
 		if v == nil {
-			return def
+			return nil
 		}
-		t := in.idx64(fr.get(v).(*Term), v.Type())
-		if !t.IsConst() {
-			return int(int64(in.concretize(t, "slice bound")))
+		return in.idx64(fr.get(v).(*Term), v.Type())
+	}
+	lt, ht, mt := term(lo), term(hi), term(max)
+	// check decides 0 <= l <= h <= m <= c symbolically (one branch), then
+	// concretises the in-range values only.
+	check := func(length, c int) (int, int, int) {
+		l, h, m := lt, ht, mt
+		if l == nil {
+			l = tt.BVConst(0, 64)
 		}
-		return int(int64(t.cval))
+		if h == nil {
+			h = tt.BVConst(uint64(length), 64)
+		}
+		if m == nil {
+			m = tt.BVConst(uint64(c), 64)
+		}
+		ok := tt.And(tt.And(tt.CmpBV(OUle, l, h), tt.CmpBV(OUle, h, m)), tt.CmpBV(OUle, m, tt.BVConst(uint64(c), 64)))
+		in.curFrame = fr
+		if !in.decide(ok) {
+			in.throw(fr, fmt.Sprintf("slice bounds out of range [%s:%s:%s] with capacity %d", describe(l), describe(h), describe(m), c))
+		}
+		return int(in.concretize(l, "slice low bound")), int(in.concretize(h, "slice high bound")), int(in.concretize(m, "slice max bound"))
 	}
 	switch x := x.(type) {
 	case *Str:
 		n := x.Len()
-		l := getIdx(lo, 0)
-		h := getIdx(hi, n)
-		if l < 0 || h < l || h > n {
-			in.throw(fr, fmt.Sprintf("slice bounds out of range [%d:%d] with length %d", l, h, n))
-		}
+		l, h, _ := check(n, n)
 		return in.strSlice(x, l, h)
 	case Slice:
-		c := cap(x)
-		l := getIdx(lo, 0)
-		h := getIdx(hi, len(x))
-		m := getIdx(max, c)
-		if l < 0 || h < l || m < h || m > c {
-			in.throw(fr, fmt.Sprintf("slice bounds out of range [%d:%d:%d] with capacity %d", l, h, m, c))
-		}
+		l, h, m := check(len(x), cap(x))
 		if x == nil {
 			return Slice(nil)
 		}
@@ -1374,13 +1406,7 @@ func (in *Interp) slice(fr *frame, instr *ssa.Slice, x Value, lo, hi, max ssa.Va
 			in.throw(fr, "invalid memory address or nil pointer dereference")
 		}
 		a := []Value(in.loadRaw(x).(Array))
-		c := len(a)
-		l := getIdx(lo, 0)
-		h := getIdx(hi, c)
-		m := getIdx(max, c)
-		if l < 0 || h < l || m < h || m > c {
-			in.throw(fr, fmt.Sprintf("slice bounds out of range [%d:%d:%d] with capacity %d", l, h, m, c))
-		}
+		l, h, m := check(len(a), len(a))
 		if a == nil {
 			a = []Value{}
 		}
